@@ -7,7 +7,7 @@ rc == <<114, 99>>
 \* 0.26.0 < 0.27.0-1 < 0.27.0-rc.1 < 0.27.0-rc.2 < 0.27.0 < 0.27.1-rc.1
 MCVersions == { V(<<0, 26, 0>>, << >>), V(<<0, 27, 0>>, <<Num(1)>>), V(<<0, 27, 0>>, <<Id(rc), Num(1)>>), V(<<0, 27, 0>>, <<Id(rc), Num(2)>>),
                 V(<<0, 27, 0>>, << >>), V(<<0, 27, 1>>, <<Id(rc), Num(1)>>) }
-MCCheckpoint == V(<<0, 27, 0>>, <<Id(rc), Num(1)>>)
+MCCheckpoints == { V(<<0, 27, 0>>, <<Id(rc), Num(1)>>), V(<<0, 27, 0>>, << >>) }
 Identity(a) == a
 ReleaseTripleOnly(a) == [a EXCEPT !.pre = << >>]
 \* the order is a strict total order on the model's versions (the definition is exercised, not only used)
